@@ -80,6 +80,9 @@ pub enum Step {
     TopAddAssign(u32, i64),
     /// `for i in 0..n` / `  t<k> += 1`: an accumulator in a top-level loop
     TopLoopAdd(u32, u32),
+    /// `for t<k> in 10..30` / `  if t<k> == v` / `    break`: the loop variable is an id that was
+    /// assigned (and exported) before; it is left with the value v
+    TopForBreak(u32, i64),
     /// `export sub = mX` (after an `import mX`): a module-valued export
     ExportSub(usize),
     /// a use of the fixture module `mz` (see `FIXTURE_MODULE`), host scripts only; kind 0: an
@@ -178,8 +181,14 @@ pub const FIXTURE_MODULE: (&str, &str) = (
 );
 /// a module next to the fixture module that only the fixture's own function imports
 pub const FIXTURE_HELPER: (&str, &str) = ("mzh.koto", "export v = 7\n");
+/// two more fixture files: a module that re-exports wildcard-imported values in an export map
+/// whose keys are named like the values they read, and one that exports a meta entry
+pub const FIXTURE_EXTRA: &[(&str, &str)] = &[
+    ("my.koto", "from mz import *\nexport\n  ez_1: ez_1\n  ez_9: ez_2 + 1\n"),
+    ("mt.koto", "export @type = 'MT'\nexport x = 1\n"),
+];
 /// what `Step::Fixture` records, by kind
-pub const FIXTURE_VALUES: &[&str] = &["6", "(41, 42, 43, 44)", "60708", "(1, 2, 3)", "7", "12"];
+pub const FIXTURE_VALUES: &[&str] = &["6", "(41, 42, 43, 44)", "60708", "(1, 2, 3)", "7", "12", "(6, 8)", "('MT', 'MT')"];
 
 fn mname(i: usize) -> String {
     format!("m{}", (b'a' + i as u8) as char)
@@ -313,6 +322,11 @@ fn render_steps(out: &mut Vec<String>, indent: usize, steps: &[Step], module: us
                 out.push(format!("{pad}for i in 0..{n}"));
                 out.push(format!("{pad}  t{k} += 1"));
             }
+            Step::TopForBreak(k, v) => {
+                out.push(format!("{pad}for t{k} in 10..30"));
+                out.push(format!("{pad}  if t{k} == {v}"));
+                out.push(format!("{pad}    break"));
+            }
             Step::ExportSub(t) => out.push(format!("{pad}export sub = {}", mname(*t))),
             Step::Fixture(id, kind) => match kind {
                 0 => {
@@ -344,6 +358,18 @@ fn render_steps(out: &mut Vec<String>, indent: usize, steps: &[Step], module: us
                     out.push(format!("{pad}export mzh = 99"));
                     out.push(format!("{pad}import mz as qz{id}"));
                     out.push(format!("{pad}val({id}, qz{id}.lazy_v())"));
+                }
+                6 => {
+                    out.push(format!("{pad}import my as qy{id}"));
+                    out.push(format!("{pad}val({id}, (qy{id}.ez_1, qy{id}.ez_9))"));
+                }
+                7 => {
+                    // a module with a meta entry, imported twice: both handles see it
+                    out.push(format!("{pad}import mt as qa{id}"));
+                    out.push(format!("{pad}ft{id} = ||"));
+                    out.push(format!("{pad}  import mt as qb{id}"));
+                    out.push(format!("{pad}  return type qb{id}"));
+                    out.push(format!("{pad}val({id}, (type qa{id}, ft{id}()))"));
                 }
                 _ => {
                     // importing from a name that a wildcard import made visible
@@ -440,6 +466,9 @@ pub fn write_world(w: &World, scratch: &Scratch) {
     std::fs::write(scratch.dir.join("main.koto"), "# importing script\n").expect("write");
     std::fs::write(scratch.dir.join(FIXTURE_MODULE.0), FIXTURE_MODULE.1).expect("write");
     std::fs::write(scratch.dir.join(FIXTURE_HELPER.0), FIXTURE_HELPER.1).expect("write");
+    for (name, text) in FIXTURE_EXTRA {
+        std::fs::write(scratch.dir.join(name), text).expect("write");
+    }
     for i in 0..w.modules.len() {
         write_module(w, i, w.disk[i], scratch);
     }
@@ -756,7 +785,7 @@ pub fn gen_scenario(seed: u64) -> Scenario {
                 }
                 if r.chance(1, 4) {
                     let at = 1 + r.usize_below(top.len());
-                    top.insert(at, Step::Fixture(id(), r.below(6) as u8));
+                    top.insert(at, Step::Fixture(id(), r.below(8) as u8));
                 }
                 if export_top_level {
                     top.push(Step::TopAssign(1, 5));
@@ -767,6 +796,9 @@ pub fn gen_scenario(seed: u64) -> Scenario {
                     }
                     if r.chance(1, 2) {
                         top.push(Step::TopLoopAdd(1, r.range(1, 3) as u32));
+                    }
+                    if r.chance(1, 3) {
+                        top.push(Step::TopForBreak(2, r.irange(11, 25)));
                     }
                 } else if r.chance(1, 2) {
                     top.push(Step::Export(1, 500 + ops.len() as i64));
@@ -1139,6 +1171,13 @@ impl ModelState {
                         && let Some(e) = exports.iter_mut().find(|(n2, _)| *n2 == format!("t{k}"))
                     {
                         e.1 += *n as i64;
+                    }
+                }
+                Step::TopForBreak(k, v) => {
+                    if cx.export_top_level
+                        && let Some(e) = exports.iter_mut().find(|(n2, _)| *n2 == format!("t{k}"))
+                    {
+                        e.1 = *v;
                     }
                 }
                 Step::ExportSub(t) => {
@@ -1664,7 +1703,7 @@ pub fn shrink(sc: &Scenario, class: &str, scratch: &Scratch, clock: &Rc<VClock>)
         for (i, s) in steps.iter().enumerate() {
             let before = &steps[..i];
             let ok = match s {
-                Step::TopAddAssign(k, _) | Step::TopLoopAdd(k, _) => {
+                Step::TopAddAssign(k, _) | Step::TopLoopAdd(k, _) | Step::TopForBreak(k, _) => {
                     before.iter().any(|b| matches!(b, Step::TopAssign(kk, _) if kk == k))
                 }
                 Step::ExportSub(t) => before.iter().any(|b| {
@@ -1870,6 +1909,9 @@ pub fn replay(doc: &Value) -> (Option<(String, String)>, u64) {
     std::fs::write(scratch.dir.join("main.koto"), "# importing script\n").expect("write");
     std::fs::write(scratch.dir.join(FIXTURE_MODULE.0), FIXTURE_MODULE.1).expect("write");
     std::fs::write(scratch.dir.join(FIXTURE_HELPER.0), FIXTURE_HELPER.1).expect("write");
+    for (name, text) in FIXTURE_EXTRA {
+        std::fs::write(scratch.dir.join(name), text).expect("write");
+    }
     let write_file = |f: &Value| {
         let name = f["module"].as_str().unwrap_or("");
         let text = f["text"].as_str().unwrap_or("");
